@@ -254,6 +254,9 @@ XDMA_CONFIGS = [
     ("allreader", [("n", 1, "PALDUc"), ("n", 1, "Stcm")]),
     # temporal dims flagged for internal reuse: the bound collapses to 1 ONLY for a pattern that really repeats (stride 0)
     ("reuse", [("nr", 1, "c"), ("rn", 1, "cm")]),
+    # plain options listed IN FRONT OF extensions: a bypass bit is the extension's position among the EXTENSIONS
+    ("optfirst", [("n", 1, "cAD"), ("n", 1, "ctmS")]),
+    ("optamid", [("n", 1, "AcD"), ("n", 1, "c")]),
 ]
 
 
@@ -263,7 +266,8 @@ class XDMA_setup_vals_match_fields:
     shapes = [dict(config=c, kernel=k, operands=o) for c, _ in XDMA_CONFIGS for k in ("nogeneric", "add_i32", "mul_i32", "rescale_down")
               for o in (("ptr", "ptr"), ("const", "ptr"), ("ptr", "const"))]
     quick = lambda sh: (sh["config"] in ("default", "nomask", "rescale", "bytemask") and (sh["operands"] != ("ptr", "const") or sh["config"] == "default")) or (
-        sh["config"] == "reuse" and sh["operands"] == ("ptr", "ptr") and sh["kernel"] in ("nogeneric", "add_i32"))
+        sh["config"] == "reuse" and sh["operands"] == ("ptr", "ptr") and sh["kernel"] in ("nogeneric", "add_i32")) or (
+        sh["config"] in ("optfirst", "optamid") and sh["operands"] == ("ptr", "ptr") and sh["kernel"] in ("add_i32", "rescale_down"))
     total = True
     compare_ret = False
 
@@ -556,7 +560,7 @@ class HWPE_setup_vals_match_fields:
         acc, op, refs = a
         vals = list(ret)
         fields = list(acc.fields)
-        el = sh["bits"] // 8
+        el = ((sh["bits"] + 7) // 8)
         check("exactly one value per declared field", len(vals) == len(fields))
         if len(vals) == len(fields):
             got = {fields[i]: vals[i][1] for i in range(len(fields))}
@@ -568,3 +572,82 @@ class HWPE_setup_vals_match_fields:
 
     def canary(sh, a, ret):
         check("canary: all pointers are 0", den(list(ret)[0][1]) == 0)
+
+
+# =====================================================================================
+# GEMMX template: the spatial unrolling offered to the scheduler is the array geometry (m x k) * (k x n) -> (m x n)
+# =====================================================================================
+from snaxc.accelerators.snax_gemmx import default_streamer as gemmx_default_streamer  # noqa: E402
+
+TEMPLATE_KERNELS = ("mac", "qmac", "mac_add", "mac_rescale", "mac_add_rescale", "rescale_only")
+
+
+def template_body(sym, kind):
+    x8, acc32 = mk_ident_value(3101, i8), mk_ident_value(3102, i32)
+    stream8, stream32 = dart.StreamType(IntegerType(8)), dart.StreamType(IntegerType(32))
+    if kind == "rescale_only":
+        g = dart.GenericOp([x8], Region([Block([mk_rescale(sym, acc32, 1, i8)])]), None, None, [stream8])
+        return [g, dart.YieldOp(g.outputs[0])]
+    blk = Block(arg_types=[i8, i8, i32, i32])
+    if kind.startswith("qmac"):
+        blk.add_op(kernel.QMacOp.create(operands=[blk.args[0], blk.args[1], blk.args[2], blk.args[3]], result_types=[i32]))
+    else:
+        blk.add_op(kernel.MacOp.create(operands=[blk.args[0], blk.args[1]], result_types=[i32]))
+    ops = [dart.GenericOp([x8, x8, acc32, acc32], Region([blk]), None, None, [stream32])]
+    if "add" in kind:
+        ops.append(dart.GenericOp([ops[-1].outputs[0], acc32], Region([Block([kernel.AddOp.create(operands=[acc32, acc32], result_types=[i32])])]), None, None, [stream32]))
+    if "rescale" in kind:
+        ops.append(dart.GenericOp([ops[-1].outputs[0]], Region([Block([mk_rescale(sym, acc32, 1, i8)])]), None, None, [stream8]))
+    ops.append(dart.YieldOp(ops[-1].outputs[0]))
+    return ops
+
+
+def footprint(tp):
+    """per result of the operand's template pattern: how many distinct index values one hardware step covers"""
+    A = tp.pattern.A.tolist()
+    out = []
+    for row in A:
+        ext = 1
+        for j in range(len(row)):
+            if row[j] != 0:
+                ext = ext + abs(row[j]) * (tp.bounds[j] - 1)
+        out.append(ext)
+    return out
+
+
+@contract
+class GEMMX_get_template_contract:
+    """one hardware step of a gemmx array built as (m, n, k) consumes an m x k tile of A and a k x n tile of B and produces
+    an m x n tile of the result (C / D likewise); the rescale-only function streams m x k tiles - for EVERY geometry, not
+    only the cubic default"""
+    target = "snaxc.accelerators.snax_gemmx.SNAXGEMMXAccelerator.get_template"
+    shapes = [dict(kernel=kn, geom=g) for kn in TEMPLATE_KERNELS for g in ((8, 8, 8), (4, 8, 16), (2, 3, 5), (16, 4, 8))]
+    quick = lambda sh: sh["geom"] != (16, 4, 8)
+    native = False
+    total = True
+    compare_ret = False
+
+    def args(sh, sym):
+        m, n, k = sh["geom"]
+        acc = SNAXGEMMXAccelerator(gemmx_default_streamer, m, n, k)
+        op = XRegionView([], [], template_body(sym, sh["kernel"]))
+        return [acc, op]
+
+    def ensures(sh, a, ret):
+        m, n, k = sh["geom"]
+        pats = list(ret)
+        kind = sh["kernel"]
+        if kind == "rescale_only":
+            check("rescale only: input and output stream m x k tiles", len(pats) == 2 and all(footprint(p) == [m, k] for p in pats))
+            return
+        check("one template pattern per streamed operand: A, B, (C,) result", len(pats) == (4 if "add" in kind else 3))
+        check("A is consumed in m x k tiles", footprint(pats[0]) == [m, k])
+        check("B is consumed in k x n tiles", footprint(pats[1]) == [k, n])
+        for j in range(2, len(pats)):
+            check(f"operand {j} (C / result) is produced in m x n tiles", footprint(pats[j]) == [m, n])
+        check("all operands share one iteration space", all(tuple(p.bounds) == tuple(pats[0].bounds) for p in pats))
+        bs = list(pats[0].bounds)
+        check("the iteration space of one step has m * n * k points", bs[0] * bs[1] * bs[2] == m * n * k and len(bs) == 3)
+
+    def canary(sh, a, ret):
+        check("canary: every tile is 8 x 8", all(footprint(p) == [8, 8] for p in ret) and sh["geom"] != (8, 8, 8))
